@@ -148,7 +148,12 @@ claim("C14", "proof",
       "every bound is served, where the output is proved complete) and the delivered bytes are a prefix of the fault-free output, for every engine (read_fault_prefix, "
       "stream_monotone); a failing record leaves the complete output of earlier records (failing_record). Fault enumeration: main's dispatch with Read/Write doubles "
       "failing at EVERY byte position (model = implementation on each), short writes; real binary with RLIMIT_FSIZE=k (byte exact), /dev/full, closed pipe, stdin from a "
-      "directory.",
+      "directory. The buffering layer under the engines is no longer assumed: std's BufWriter (write / write_all / flush_buf), LineWriterShim and LineWriter, the default write_all loop and BufReader (fill_buf / consume / the large-read bypass) "
+      "are transcribed from the std source over a raw descriptor whose every write / read is answered by an arbitrary ORACLE (short counts, EINTR, Ok(0), hard errors), and main's composition BufWriter(64 KiB) over LineWriter(1 KiB) over fd 1 is proved "
+      "(Props/StdioLit.lean, 110 theorems, all capacities): W1 a fault-free OS delivers exactly the concatenation of the write_all calls and flush leaves both buffers empty; W2 under any oracle what reached the descriptor is a PREFIX, status 0 implies "
+      "complete, and it equals `deliver` of the model for some limit (W2_deliver — the theorem that ties the model's fault wrapper to std's text); W3 `write` in place of `write_all` is short exactly on slices ≥ capacity with an interior newline and a tail ≥ 1 KiB "
+      "(write_is_short; why four independent seeded changes of that kind hide), a flush skipped when the BufWriter is empty loses the LineWriter's tail silently (skipped_flush_silent_loss = seeded change C14m); R1 BufReader::fill_buf is empty only at EOF for capacity > 0 "
+      "(R1_fill_buf_empty_only_at_eof, R1_initial_segs: discharges the 'reads are non-empty' hypothesis of every reader theorem from the read(2) contract; capacity 0 = seeded change C04m).",
       TIE + " Kernel-side pipe/EPIPE timing and stderr delivery are observed at the CLI, not modelled.",
       "Lean 4 theorems over a fault model (deliver / dispatchReadFault, prefix monotonicity) + exhaustive fault-position enumeration", "§4 C14")
 claim("C18", "proof",
